@@ -52,12 +52,13 @@ CLAIMED = {
             BASE_NOTE + " jnp.take wrap-around semantics and one-winner scatter are assumed contracts.", "DESIGN §6-C12"),
     "C13": ("entropy, KL (three batch conventions), conditional entropy (both characterisations) and mutual information with its sign, "
             "M=0 and swap invariance are proved equal to expectations generated by the Wick spec; inequality clauses inherit from Gibbs' "
-            "inequality (assumed).", BASE_NOTE + " G2, G5 assumed.", "DESIGN §6-C13"),
+            "inequality (assumed); constructor contracts of every conditional class (Sigma / Lambda / both / all three supplied) establish "
+            "the class invariant the information quantities read.", BASE_NOTE + " G2, G5 assumed.", "DESIGN §6-C13"),
     "C14": ("integrate('log u(x)') for every factor kind and batch convention (and its refusal), integrate_log_conditional for an arbitrary "
             "block Gaussian q over (y,x), integrate_log_conditional_y as callable and evaluated, for the linear, identity and NN-controlled "
-            "kinds, are proved equal to the Wick expectations; RBF feature model: integrate_log_conditional_y (callable and evaluated) proved "
-            "from the kernel moments. Not covered: integrate_log_conditional of the feature models (needs the inverse of a block matrix) and "
-            "the squared-exponential model's pair-level terms.",
+            "kinds, are proved equal to the Wick expectations; RBF and squared-exponential feature models: integrate_log_conditional_y (callable "
+            "and evaluated, p_x batched or single) proved from the kernel moments; constructor contracts of every conditional class in every "
+            "argument combination. Not covered: integrate_log_conditional of the two feature models (block inverse of the tilted joint).",
             BASE_NOTE + " G1, G2 assumed.", "DESIGN §6-C14"),
     "C15": ("Literal statement on equal parameters, both sides extracted from the real code: rank-one / linear / constant factors vs "
             "ConjugateFactor (evaluate, slice, product, multiply and hadamard in both update_full modes incl. Sherman-Morrison vs full "
@@ -69,8 +70,9 @@ CLAIMED = {
             "conditional transformation (= Gaussian conditional of the moment-matched joint) and the joint's mean / covariance blocks, R "
             "generic or 1 (Sherman-Morrison and rank-one determinant ghost steps for the squared-exponential kernels); heteroscedastic exp, "
             "cosh-1, step and rectified-linear links -- E[link(h)] (Gaussian mgf; truncated-measure contracts under vmap), moments, cross "
-            "terms, marginal, and for exp / cosh-1 also conditional and joint blocks. NOT covered: precision / log-determinant of the "
-            "moment-matched joint (inverse of a block matrix is opaque), conditional / joint transformations of the step and ReLU links.",
+            "terms, marginal, and for exp / cosh-1 also the conditional and the joint with its full class invariant (block inverse = Schur-"
+            "complement formula, Lean inv_fromBlocks11/22). NOT covered: Sigma*Lambda = I and ln det of the RBF / squared-exponential joints "
+            "(kernel incompleteness: resolvent identity), conditional / joint transformations of the step and ReLU links.",
             BASE_NOTE + " G1, G2, G4 assumed; positive definiteness of moment-matched covariances is a precondition.", "DESIGN §6-C16, §11"),
     "C17": ("(a) coherent p(y|x): for the four links condition_on_x(x) has mean Mx+b, covariance AA' + A_k diag(link(Wx+w0)) A_k', and its "
             "precision / log-determinant ARE the inverse / log-determinant of that covariance in the regime Da = Dy (Lean det_gram_diag); in "
